@@ -25,7 +25,7 @@ CONFIG = dict(
     min_nontrivial={"quick": 2000, "thorough": 50000},
     nshards={"quick": 16, "thorough": 16},
     timeout={"quick": 900, "thorough": 7200},
-    required_counters=("value_checks", "plain_checks", "plain_delivery_checks", "interrupted_traces_resumed"),
+    required_counters=("threaded_decompiles", "threaded_yields_injected", "value_checks", "plain_checks", "plain_delivery_checks", "interrupted_traces_resumed"),
 )
 
 CONTAINER_TAGS = ("list", "tuple", "dict", "set", "frozenset", "obj")
@@ -359,6 +359,48 @@ def interrupted_trace(ctx, label, data, value):
             return
 
 
+def threaded_decompile(ctx, label, data, value):
+    """One parsed pickle handed to several threads that all ask for its decompilation at once (a scanner fanning
+    analyses out to a pool): every thread gets a program that evaluates to the pickled value."""
+    from vp import threads
+    f = de.fickle()
+    import fickling.analysis as analysis
+    agg = ctx.agg
+    try:
+        want = ast.unparse(f.Pickled.load(data).ast)
+    except Exception:
+        return
+    p = f.Pickled.load(data)
+
+    def ask_source():
+        return ast.unparse(p.ast)
+
+    def ask_check():
+        analysis.check_safety(p)
+        return ast.unparse(p.ast)
+    res, st = threads.race([ask_source, ask_check, ask_source], seed=int(h(data)[:6], 16))
+    agg.count("threaded_decompiles")
+    agg.count("threaded_yields_injected", st["yields_injected"])
+    for kind, got in res:
+        if kind == "ok" and got == want:
+            continue
+        if kind == "raise" and isinstance(got, RecursionError):
+            continue
+        if kind == "ok":
+            try:
+                ok = same(value, _eval_plain(got))
+            except BaseException:
+                ok = False
+            if ok:
+                continue
+        agg.violation("plain-value-differs:threads" if kind == "ok" else f"plain-data-refused:threads:{type(got).__name__}",
+                      "several threads asked for the decompilation of one parsed pickle at once; one of them got "
+                      + ("a program that does not evaluate to the pickled value" if kind == "ok" else f"{type(got).__name__}: {str(got)[:80]}"),
+                      diffrun.witness(label, data, gen.op_names(data), value=repr(value)[:200], threaded=True,
+                                      got=(got if kind == "ok" else repr(got))[:300], single_threaded=want[:300]))
+        return
+
+
 def run_shard(ctx):
     diffrun.run(ctx, oracle, deep_need={"reduce", "obj", "inst", "newobj", "newobj_ex", "build", "binpersid"})
     n = {"quick": 1200, "thorough": 25000}[ctx.tier]
@@ -373,6 +415,8 @@ def run_shard(ctx):
         i += 1
         if len(data) < 400 and i % 5 == 0:
             interrupted_trace(ctx, "plain-trace-fault-" + label, data, v)
+        if len(data) < 2000 and i % 7 == 0:
+            threaded_decompile(ctx, "plain-threads-" + label, data, v)
         if prev is not None and i % 3 == 0:
             plain_deliveries(ctx, "plain-delivery-" + label, prev, (data, v))
         prev = (data, v)
@@ -380,7 +424,11 @@ def run_shard(ctx):
 
 def replay(ctx, payload):
     case = payload["case"]
-    if case.get("label", "").startswith("plain-") and "value" in case:
+    if case.get("threaded"):
+        data = bytes.fromhex(case["hex"])
+        import pickle
+        threaded_decompile(ctx, case["label"], data, pickle.loads(data))
+    elif case.get("label", "").startswith("plain-") and "value" in case:
         data = bytes.fromhex(case["hex"])
         import pickle
         plain_check(ctx, case["label"], data, pickle.loads(data))
